@@ -46,7 +46,12 @@ func runC08(c *Ctx) {
 			n++
 			c.Anchor("C08.1", "handler guard")
 			num := cs.Common().Args[0]
-			g := w.guardedBy(cs, valid, -1, "true", func(g *ssa.Call) bool { return w.sameKey(g.Call.Args[0], num) })
+			// the number may come out of a helper that decodes and checks it: compare with
+			// what that helper returns on the path taken here
+			numOrigin, _, _ := w.originAt(num, cs)
+			g := w.guardedBy(cs, valid, -1, "true", func(g *ssa.Call) bool {
+				return w.sameKey(g.Call.Args[0], num) || w.key(g.Call.Args[0]) == w.key(numOrigin)
+			})
 			if g != nil {
 				c.OK("C08.1", fname(cs.Parent()), "NewChannelBind number", w.instrPos(cs), "dominated by "+w.key(num)+".Valid() == true")
 			} else {
@@ -110,20 +115,36 @@ func runC08(c *Ctx) {
 		addrEq := w.Func("ipnet", "", "AddrEqual")
 		cbs := w.Field("allocation", "Allocation", "channelBindings")
 		var appendStore *ssa.Store
-		w.eachInstr(acb, func(in ssa.Instruction) {
+		w.eachInstrDeep(acb, func(in ssa.Instruction) {
 			if st, ok := in.(*ssa.Store); ok {
 				if fa, ok := st.Addr.(*ssa.FieldAddr); ok && fieldOf(fa) == cbs {
 					appendStore = st
 				}
 			}
 		})
-		lookupOK := func(call *ssa.Call, fn *ssa.Function, field string) bool {
-			return call != nil && call.Call.StaticCallee() == fn && w.sameKey(call.Call.Args[0], acb.Params[0]) && w.isFieldLoadOf(call.Call.Args[1], acb.Params[1], field)
+		// lookupIs: v is the binding of this allocation found by the requested number / peer —
+		// through GetChannelByNumber / GetChannelByAddr or any helper that selects from the
+		// table by the same key test
+		_, _ = byNum, byAddr
+		lookupIs := func(v ssa.Value, kind string) bool {
+			k, key, recv, ok := w.tableLookup(v, cbs, addrEq, 3)
+			return ok && k == kind && w.sameKey(recv, acb.Params[0]) && w.isFieldLoadOf(w.resolveLoad(key), acb.Params[1], kind)
 		}
 		type conflict struct{ errName, desc string }
 		found := map[string]*ssa.Return{}
-		for _, r := range returnsOf(acb) {
-			g := globalLoad(w.resolveLoad(r.Results[0]))
+		var bodyRets []*ssa.Return
+		for _, bf := range w.helpersOf(acb) {
+			if bf.Parent() != nil {
+				continue
+			}
+			bodyRets = append(bodyRets, returnsOf(bf)...)
+		}
+		for _, r := range bodyRets {
+			// the error result (last result) names the conflict
+			if len(r.Results) == 0 {
+				continue
+			}
+			g := globalLoad(w.resolveLoad(r.Results[len(r.Results)-1]))
 			if g == nil {
 				continue
 			}
@@ -131,12 +152,12 @@ func runC08(c *Ctx) {
 			switch nm(g) {
 			case "ErrSamePeerDifferentChannel":
 				c.Anchor("C08.2", g.Name())
-				var ba *ssa.Call
+				var ba ssa.Value
 				okNil, okNum := false, false
 				for _, f := range facts {
 					if v, isNil, ok := nilFact(f); ok && !isNil {
-						if call, _ := callOf(v); lookupOK(call, byAddr, "Peer") {
-							ba, okNil = call, true
+						if lookupIs(v, "Peer") {
+							ba, okNil = v, true
 						}
 					}
 				}
@@ -157,12 +178,12 @@ func runC08(c *Ctx) {
 				}
 			case "ErrSameChannelDifferentPeer":
 				c.Anchor("C08.2", g.Name())
-				var bn *ssa.Call
+				var bn ssa.Value
 				okNil, okPeer := false, false
 				for _, f := range facts {
 					if v, isNil, ok := nilFact(f); ok && !isNil {
-						if call, _ := callOf(v); lookupOK(call, byNum, "Number") {
-							bn, okNil = call, true
+						if lookupIs(v, "Number") {
+							bn, okNil = v, true
 						}
 					}
 				}
@@ -200,7 +221,7 @@ func runC08(c *Ctx) {
 			okEdge := false
 			for _, f := range w.factsAt(appendStore) {
 				if v, isNil, ok := nilFact(f); ok && isNil {
-					if call, _ := callOf(v); lookupOK(call, byNum, "Number") {
+					if lookupIs(v, "Number") {
 						okEdge = true
 					}
 				}
@@ -210,26 +231,60 @@ func runC08(c *Ctx) {
 			}
 			// the test blocks dominate the append; no effect reaches a rejecting return
 			for name, r := range found {
-				var testBlock *ssa.BasicBlock
-				b := r.Block()
-				for len(b.Preds) == 1 {
-					p := b.Preds[0]
-					if _, isIf := p.Instrs[len(p.Instrs)-1].(*ssa.If); isIf {
-						testBlock = p
+				rf := r.Parent()
+				// positions in AddChannelBind itself: the rejection (or the call of the helper
+				// that contains it) and the append (or the call that leads to it)
+				rTop, aTop := w.topOf(r, acb), w.topOf(appendStore, acb)
+				switch {
+				case rTop == nil || aTop == nil:
+					bad = "cannot relate the " + name + " test to the append"
+				case rf == acb:
+					// the branch that guards the rejection dominates the append's position
+					var testBlock *ssa.BasicBlock
+					b := r.Block()
+					for len(b.Preds) == 1 {
+						p := b.Preds[0]
+						if _, isIf := p.Instrs[len(p.Instrs)-1].(*ssa.If); isIf {
+							testBlock = p
+						}
+						b = p
+						if len(p.Preds) != 1 {
+							break
+						}
 					}
-					b = p
-					if len(p.Preds) != 1 {
-						break
+					if testBlock == nil || !(testBlock == aTop.Block() || testBlock.Dominates(aTop.Block())) {
+						bad = "the " + name + " test does not dominate the append"
+					}
+				default:
+					// the rejection sits in a helper: its call dominates the append's position,
+					// and the append is on the edge where that call reported no error
+					okNoErr := false
+					if hc, isCall := rTop.(*ssa.Call); isCall && instrDominates(rTop, aTop) {
+						for _, f := range w.factsAt(appendStore) {
+							if v, isNil, ok := nilFact(f); ok && isNil {
+								if fc, fi := callOf(w.resolveLoad(v)); fc == hc && (fi == hc.Call.Signature().Results().Len()-1 || fi < 0) {
+									okNoErr = true
+								}
+							}
+						}
+					}
+					if !okNoErr {
+						bad = "the " + name + " test (in " + fname(rf) + ") does not dominate the append on its no-error edge"
 					}
 				}
-				if testBlock == nil || !testBlock.Dominates(appendStore.Block()) {
-					bad = "the " + name + " test does not dominate the append"
-				}
-				w.eachInstr(acb, func(in ssa.Instruction) {
+				w.eachInstr(rf, func(in ssa.Instruction) {
 					if eff := w.effectAt(in); eff != "" && instrReaches(in, r) {
 						bad = "a state effect (" + eff + " at " + w.instrPos(in) + ") can precede the rejection " + name + ": a refused ChannelBind changes state"
 					}
 				})
+				// effects of the callers before the helper is entered
+				for site := w.singleSiteCI(rf); site != nil; site = w.singleSiteCI(site.Parent()) {
+					w.eachInstr(site.Parent(), func(in ssa.Instruction) {
+						if eff := w.effectAt(in); eff != "" && in != ssa.Instruction(site) && instrReaches(in, site) {
+							bad = "a state effect (" + eff + " at " + w.instrPos(in) + ") can precede the rejection " + name + ": a refused ChannelBind changes state"
+						}
+					})
+				}
 			}
 			if bad == "" && len(found) == 2 {
 				c.OK("C08.2", fname(acb), "append", w.instrPos(appendStore), "on the byNumber == nil edge, dominated by both conflict tests; rejecting paths are effect-free")
